@@ -36,7 +36,7 @@ ASSUMPTIONS = {'C07': ['lamb > 0 (as in the quantifier); shapes d<=5, n_k<=5, ra
                        'the measured response of the same map to 1e-9 relative noise in y (3 probes) with a floor of 1e-10 relative']}
 EXPECTED_PROBES = {'C07': ['restart_bitwise', 'single_sample_slice_row0', 'cancelled_by_cb', 'permuted_restart', 'order_checked',
                            'optimality_checked', 'descent_checked', 'rank_adaptive', 'missing_slice_rejected', 'skip_cores_unchanged',
-                           'als_func_runs', 'weights', 'stop_e', 'stop_e_vld', 'func_mode_size_reduced']}
+                           'als_func_runs', 'weights', 'stop_e', 'stop_e_vld', 'stop_e_vld_mid_run', 'func_mode_size_reduced']}
 BUDGET = {'C07': {'quick': {'n': 1500, 'max_s': 150, 'chunk': 10}, 'thorough': {'n': 120000, 'max_s': 3000, 'chunk': 25}}}
 
 
@@ -675,7 +675,11 @@ def execute_contract(sc):
             h.append([G.tobytes() for G in (o.Y or [])])
     elif cl == 'adaptive':
         rmax = sc['rmax']
-        o = run_job(sc, I, y, None, Y0, 3, extra={'r': rmax, 'lamb': sc['lamb']})
+        g_ = gen(sc['dseed'] + 13)
+        ex = {'r': rmax, 'lamb': sc['lamb']}
+        if g_.random() < 0.5:
+            ex['r_add'] = int(g_.integers(1, 3))          # growth per sweep smaller than the cap
+        o = run_job(sc, I, y, None, Y0, int(g_.integers(3, 6)), extra=ex)
         runs += 1
         P('rank_adaptive')
         if o.exc is not None or o.abort is not None:
@@ -750,6 +754,29 @@ def execute_contract(sc):
             ev = np.linalg.norm(predict(o.Y, Iv) - yv) / np.linalg.norm(yv)
             if abs(o.info.get('e_vld', -1) - ev) > 1e-9 * max(1, ev):
                 V.append(viol('info-e_vld', 'info[e_vld]=%r, validation error of the returned tensor is %r' % (o.info.get('e_vld'), ev)))
+        # a threshold that is crossed at some later sweep: the run must stop right after that sweep, with the tensor a plain run of that many sweeps returns
+        if not V:
+            ref = run_job(sc, I, y, w, Y0, 5, extra={'I_vld': Iv, 'y_vld': yv})
+            runs += 1
+            if ref.Y is not None and len(ref.mon.snaps) == 5:
+                evs = [sn['info'].get('e_vld') for sn in ref.mon.snaps]
+                s_pick = 1 + int(g.integers(0, 4))
+                thr = float(evs[s_pick]) * (1 + 1e-9) if evs[s_pick] > 0 else None
+                if thr is not None:
+                    first = next(i for i, v in enumerate(evs) if v <= thr)
+                    e0 = float(np.linalg.norm(predict(Y0, Iv) - yv) / np.linalg.norm(yv))
+                    if e0 > thr:
+                        o2 = run_job(sc, I, y, w, Y0, 5, extra={'I_vld': Iv, 'y_vld': yv, 'e_vld': thr})
+                        runs += 1
+                        P('stop_e_vld_mid_run')
+                        if o2.Y is None:
+                            V.append(viol('exception', 'als with e_vld=%g raised %r' % (thr, o2.exc)))
+                        elif o2.info.get('stop') != 'e_vld' or o2.info.get('nswp') != first + 1 or len(o2.mon.snaps) != first + 1:
+                            V.append(viol('stop', 'validation errors per sweep %s, e_vld=%.6g: expected stop=e_vld after sweep %d, got stop=%r after %r sweeps (%d callbacks)'
+                                          % (['%.4g' % v for v in evs], thr, first + 1, o2.info.get('stop'), o2.info.get('nswp'), len(o2.mon.snaps))))
+                        elif not same_bits(o2.Y, ref.mon.snaps[first]['Y']):
+                            V.append(viol('stop', 'als stopped by e_vld after sweep %d returns another tensor than a plain run of %d sweeps (rel. diff %.3e)'
+                                          % (first + 1, first + 1, float(np.linalg.norm(flat(o2.Y) - flat(ref.mon.snaps[first]['Y'])) / max(np.linalg.norm(flat(o2.Y)), 1e-300)))))
     return finish(sc, V, stats, runs, 0.0, h, 1 if runs else 0)
 
 
